@@ -4,6 +4,7 @@ Everything here is plain data plumbing over the JSON written by sa/driver.
 No rule logic lives in this module.
 """
 import json
+import os
 from functools import lru_cache
 
 
@@ -324,9 +325,28 @@ class Crate:
             self.raw = json.load(f)
         self.kind = self.raw["kind"]
         self.fninfo = {f["path"]: f for f in self.raw["fns"]}
-        self.bodies = {}
+        # raw_bodies: the functions as written; bodies: the view the rules analyse, in which calls of local functions
+        # the rules do not know (not in sa/tables/known_functions.txt) are inlined (lib/inline.py)
+        self.raw_bodies = {}
         for name, raw in self.raw["mir"].items():
-            self.bodies[name] = Body(name, raw, self.fninfo.get(name))
+            self.raw_bodies[name] = Body(name, raw, self.fninfo.get(name))
+        self.bodies = self.raw_bodies
+        self.inline_report = {"enabled": False}
+        if os.environ.get("JAWK_SA_NO_INLINE") != "1":
+            from lib import inline
+            mir2, rep = inline.inline_unknown(self.raw)
+            self.inline_report = rep
+            if rep.get("inlined"):
+                self.bodies = {}
+                for name, raw in mir2.items():
+                    self.bodies[name] = self.raw_bodies[name] if name not in rep["inlined"] else \
+                        Body(name, raw, self.fninfo.get(name))
+                # a new function whose code is analysed inside the functions it was inlined into is not a body of
+                # its own in this view (census rules would otherwise see its code twice, under a name they do not know)
+                for name in list(self.bodies):
+                    rs = self.roots_of(name)
+                    if rs and rs != {name}:
+                        del self.bodies[name]
         self.adts = {a["path"]: a for a in self.raw["adts"]}
         self.statics = self.raw["statics"]
         self.aliases = {a["path"]: a["ty"] for a in self.raw["aliases"]}
@@ -334,6 +354,44 @@ class Crate:
         self.impls = self.raw["impls"]
         self.fmt = self.raw["fmt"]
         self.binlits = self.raw["binlits"]
+
+    def roots_of(self, name):
+        """The functions known to the rules through which the code of `name` is analysed: {name} for a known function;
+        for a function that is new to the rules, the known functions it was inlined into (transitively). Empty when
+        a new function is never called by a statically resolved call (it is then analysed nowhere else)."""
+        inl = self.inline_report.get("inlined") or {}
+        unknown = set(self.inline_report.get("unknown") or [])
+        if name not in unknown:
+            return {name}
+        roots = set()
+        seen = set()
+        work = [name]
+        while work:
+            x = work.pop()
+            if x in seen:
+                continue
+            seen.add(x)
+            for caller, callees in inl.items():
+                if x in callees:
+                    if caller in unknown:
+                        work.append(caller)
+                    else:
+                        roots.add(caller)
+        return roots
+
+    def raw_view(self):
+        """The same crate with `bodies` = the functions as written (no inlining): for the census rules whose instance
+        keys are body names and whose arguments are local to a function and its callers."""
+        if self.bodies is self.raw_bodies:
+            return self
+        v = getattr(self, "_raw_view", None)
+        if v is None:
+            import copy as _copy
+            v = _copy.copy(self)
+            v.bodies = self.raw_bodies
+            v._raw_view = v
+            self._raw_view = v
+        return v
 
     def body(self, name):
         return self.bodies.get(name)
